@@ -165,14 +165,14 @@ ALL_FAULTS = {"ConnectionReset", "ConnectionAborted", "TimedOut", "BrokenPipe", 
 MSG_LEN = {"m1": 10, "m2": 17, "m3": 27}
 
 
-def split_trace(trace, side, max_events=400000):
+def split_trace(trace, side, max_events=400000, boundary="msg"):
     """Split at `msg` events so that each part starts a fresh message; returns [(trace, side)]."""
     parts = []
     tf = sf = None
     n = 0
     with open(trace, errors="replace") as t, open(side, errors="replace") as s:
         for tl, sl in zip(t, s):
-            if tf is None or (n >= max_events and tl.startswith('{"ev":"msg"')):
+            if tf is None or (n >= max_events and ('"ev":"%s"' % boundary) in tl):
                 if tf:
                     tf.close(); sf.close()
                 i = len(parts)
@@ -306,3 +306,64 @@ def check_C07(chk):
                            MaxChunk=2)),
     ]
     stream_pipeline(chk, "C07", plans, 5 if q else 6)
+
+
+PAYLOAD_INV = ["TypeOK", "InOrder", "NoEarlyEof", "EofIsSticky"]
+
+
+def payload_describe(ev):
+    k = ev.get("ev")
+    if k == "cret":
+        return ("a read of the message stream returned something the chain design does not allow: %s" %
+                json.dumps(ev)[:300])
+    if k == "cend":
+        return "the stream ended after %s octets, which is not header+attributes followed by the whole payload" % ev.get("total")
+    if k in ("cstuck", "cpanic"):
+        return "reading the message stream %s: %s" % ("hung" if k == "cstuck" else "panicked", json.dumps(ev)[:200])
+    return "event %s not accepted: %s" % (k, json.dumps(ev)[:200])
+
+
+def check_C08(chk):
+    q = chk.tier == "quick"
+    chk.rule = ("runs = every behaviour of MC_Payload (consumer buffer sizes {0,1,4}(+2), payload source chunks, "
+                "not-ready / Interrupted answers) for the 3 payload kinds x 2 consumer interfaces, replayed on real "
+                "messages at scale 1 / 7 / 4096 / 65536 (MiB payloads; large scales sampled), plus seeded random buffer "
+                "size sequences (0 B - 64 KiB) and source schedules; one run = one complete read of a message stream to "
+                "end-of-stream; every consumer call is validated by Trace_Payload (in-order, nothing lost/duplicated, "
+                "0 only at the end or for an empty buffer)")
+    chk.assumptions = ["octet comparison against to_bytes()+pattern is done by the harness and reported as a flag",
+                       "to_bytes() itself is judged by C03", "TLC"]
+    build_harness()
+    wd = workdir("C08")
+    cases = os.path.join(wd, "cases.ndjson")
+    open(cases, "w").close()
+    for kind in ["empty", "sync", "async"]:
+        for iface in ["sync", "async"]:
+            c = dict(HLen=2, PLen=3, Kind=kind, Iface=iface, Bufs={0, 1, 4} if q else {0, 1, 2, 4},
+                     Chunks={1, 3} if q else {1, 2, 3}, MaxPend=1 if q else 2, MaxIntr=1, MaxReads=9,
+                     ChainOrder="header-first")
+            label = "%s_%s" % (kind, iface)
+            r = mc("C08", "mc_" + label, "MC_Payload.tla", dict(c, Bufs={0, 1, 2, 4}, Chunks={1, 2, 3}, MaxPend=2),
+                   PAYLOAD_INV, properties=["Ends"], view="view")
+            chk.add_mc(r, "MC_Payload/%s (safety+liveness)" % label)
+            part = os.path.join(wd, "cases_%s.ndjson" % label)
+            r = mc("C08", "gen_" + label, "MC_Payload.tla", c, ["TypeOK", "Gen"], case_file=part, timeout=1200)
+            chk.models.append({"model": "MC_Payload/%s (generator)" % label, "behaviours": r["cases"],
+                               "wall_s": round(r["wall"], 1)})
+            with open(cases, "a") as f:
+                f.write(open(part).read())
+    out = os.path.join(wd, "run")
+    harness("vh", ["payload", "--out", out, "--seed", chk.seed, "--tier", chk.tier, "--cases", cases], timeout=7200)
+    run = json.load(open(os.path.join(out, "run.json")))
+    chk.evaluations += run["evaluations"]
+    chk.distinct += run["distinct_inputs"]
+    chk.samples += run["samples"][:3]
+    chk.extra["events"] = run["events"]
+    for pt, ps in split_trace(os.path.join(out, "trace.ndjson"), os.path.join(out, "trace.side.ndjson"),
+                              boundary="pmsg"):
+        validate_with_retries(chk, "trace_payload", "Trace_Payload.tla", pt, ps, describe=payload_describe,
+                              drop_runs=True, block=(("pmsg",), ("pmsg",)))
+        if len(chk.violations) >= 3:
+            break
+    chk.extra["events_validated"] = chk.traces
+    chk.traces = max(0, run["evaluations"] - len(chk.violations))
